@@ -20,7 +20,7 @@ func init() {
 		ID:    "C05",
 		Title: "Decoding terminates with work and memory bounded by the frame size",
 		Level: "exploration",
-		Rule: "the input families F1-F5 of C04 plus long members of the repeated-section families (1 000 and 10 000 filters / reason codes / user properties / subscription identifiers: valid, truncated at every field boundary of the last three elements, and with inconsistent declared lengths), all on the statement-instrumented build. " +
+		Rule: "the input families F1-F5 of C04 plus long members of the repeated-section families (1 000 and 10 000 filters / reason codes / user properties / subscription identifiers - identical elements, pairwise distinct elements, and pairwise distinct elements colliding under the multiply-by-31 string hash: valid, truncated at every field boundary of the last three elements, and with inconsistent declared lengths), all on the statement-instrumented build. " +
 			"Every stream-corpus frame is also decoded and kept while all the others are decoded three times after it: its retained size and list lengths must not grow. Deterministic oracles with fixed constants: (1) statement points executed <= 2000 + 200*len(input) — an input that loops is cut off by the step budget and reported, never waited for; (2) deep retained size of the returned packet <= 4 KiB + 64*len(input) and every list accessor no longer than the input; (3) bytes allocated during the call <= 16 KiB + 256*declared length (measured on one input per (type, outcome, length) class in the quick tier, on every input in the thorough tier); (4) steps(10 000 elements)/steps(1 000 elements) <= 12. " +
 			"distinct_nontrivial = distinct inputs (content hash) whose decoding entered a body.",
 		Assumptions: []string{
@@ -30,6 +30,14 @@ func init() {
 		SingleThread: true,
 		Run:          runC05,
 		Replay: func(c core.Case) *core.Finding {
+			if c.Harness == "c05.after" {
+				for _, lf := range longFamilies(10000) {
+					if lf.name == paramStr(c.Params, "family") {
+						return c05SmallAfterLarge(lf, streamCorpus()[paramInt(c.Params, "index")])
+					}
+				}
+				return nil
+			}
 			if c.Harness == "c05.kept" {
 				return c05Kept(streamCorpus(), paramInt(c.Params, "index"))
 			}
@@ -200,6 +208,42 @@ func longFamilies(n int) []longFrame {
 	}
 	add("SUBSCRIBE.filters", sub)
 	add("UNSUBSCRIBE.filters", unsub)
+	// the same sections with pairwise distinct elements, and with pairwise
+	// distinct elements that all have the same value under the classic
+	// multiply-by-31 string hash (blocks "Aa" and "BB" collide): a decoder
+	// that looks elements up among the earlier ones must not become quadratic
+	for _, fam := range []string{"distinct", "colliding"} {
+		elem := func(i int) []byte {
+			if fam == "distinct" {
+				return []byte(fmt.Sprintf("e/%d", i))
+			}
+			b := make([]byte, 0, 28)
+			for bit := 0; bit < 14; bit++ {
+				if i>>uint(bit)&1 == 0 {
+					b = append(b, 'A', 'a')
+				} else {
+					b = append(b, 'B', 'B')
+				}
+			}
+			return b
+		}
+		s2 := &spec.Packet{Type: 8, Flags: 2, PacketID: 1}
+		u2 := &spec.Packet{Type: 10, Flags: 2, PacketID: 1}
+		c2 := &spec.Packet{Type: 2}
+		p2 := &spec.Packet{Type: 3, Topic: []byte("t")}
+		for i := 0; i < n; i++ {
+			s2.Filters = append(s2.Filters, spec.Filter{Topic: elem(i), Opts: 1})
+			u2.Filters = append(u2.Filters, spec.Filter{Topic: elem(i)})
+			c2.Props = append(c2.Props, spec.Prop{ID: 0x26, B: elem(i), V: []byte("v")})
+			p2.Props = append(p2.Props, spec.Prop{ID: 0x0b, N: uint32(1 + i)})
+		}
+		add("SUBSCRIBE.filters."+fam, s2)
+		add("UNSUBSCRIBE.filters."+fam, u2)
+		add("CONNACK.userprops."+fam, c2)
+		if fam == "distinct" {
+			add("PUBLISH.subids.distinct", p2)
+		}
+	}
 	add("SUBACK.codes", suback)
 	add("UNSUBACK.codes", unsuback)
 	add("PUBLISH.subids", pub)
@@ -300,6 +344,23 @@ func runC05(x *core.Ctx) {
 			} else {
 				scaling[lf.name].big = steps
 			}
+			if n == 10000 {
+				// memory for a small frame must be bounded by that frame, also
+				// when a large one was decoded just before it (capacity
+				// hints carried from call to call)
+				for si, sm := range streamCorpus() {
+					if len(sm.B) > 64 {
+						continue
+					}
+					si, sm := si, sm
+					x.Eval("small-after-large")
+					if f := c05SmallAfterLarge(lf, sm); f != nil {
+						x.Report(f, func() core.Case {
+							return core.Case{Harness: "c05.after", Frame: hexOf(sm.B), Params: map[string]any{"family": lf.name, "index": si}}
+						}, func() *core.Finding { return c05SmallAfterLarge(lf, sm) })
+					}
+				}
+			}
 			body := lf.b[hdr:]
 			// truncated at every byte of the last three elements (a superset of their field boundaries)
 			for cut := len(body) - 1; cut >= len(body)-24 && cut > 0; cut-- {
@@ -340,6 +401,26 @@ func runC05(x *core.Ctx) {
 	for k, v := range maxSteps {
 		x.R.Extra[k] = v
 	}
+}
+
+// c05SmallAfterLarge decodes the large frame and then the small one,
+// measuring what the small one allocates.
+func c05SmallAfterLarge(lf longFrame, sm CFrame) *core.Finding {
+	resetGlobals()
+	readPacket(bytes.NewReader(lf.b), stepBudget(len(lf.b)))
+	rd := bytes.NewReader(sm.B)
+	runtime.ReadMemStats(&memBefore)
+	_, _, res := readPacket(rd, stepBudget(len(sm.B)))
+	runtime.ReadMemStats(&memAfter)
+	if res.Panic != "" || res.Budget {
+		return nil
+	}
+	alloc := int64(memAfter.TotalAlloc - memBefore.TotalAlloc)
+	if lim := int64(16<<10) + 256*int64(declaredLen(sm.B)); alloc > lim {
+		return &core.Finding{Class: "alloc-depends-on-earlier-frame/" + bind.TypeNames[sm.B[0]>>4],
+			Detail: fmt.Sprintf("decoding %s (%s) right after a %s frame with %d elements allocates %d bytes, bound %d", sm.Name, abbrevHex(sm.B), lf.name, lf.elems, alloc, lim)}
+	}
+	return nil
 }
 
 // c05Kept decodes frame ai, keeps the packet, decodes every corpus frame
